@@ -56,6 +56,8 @@ class Acc(object):
         self.errors = []         # harness errors (index, text)
         self.samples = []
         self.strata = {}
+        self.skipped = 0
+        self.viol_strata = {}
 
     def add(self, index, seed, scenario, res, keep_sample):
         self.evaluations += 1
@@ -77,6 +79,9 @@ class Acc(object):
             self.nviol += 1
             key = vclass(v)
             self.viol_classes[key] = self.viol_classes.get(key, 0) + 1
+            sg = v.get('sig') or {}
+            vk = '%s|%s|%s|%s' % (key, sg.get('cls', ''), sg.get('pair', ''), sg.get('mode', ''))
+            self.viol_strata[vk] = self.viol_strata.get(vk, 0) + 1
             if len(self.violations) < 400:
                 self.violations.append((index, seed, scenario, v))
         if keep_sample and len(self.samples) < 3:
@@ -99,6 +104,9 @@ class Acc(object):
             self.strata[k] = self.strata.get(k, 0) + v
         for k, v in o.viol_classes.items():
             self.viol_classes[k] = self.viol_classes.get(k, 0) + v
+        for k, v in o.viol_strata.items():
+            self.viol_strata[k] = self.viol_strata.get(k, 0) + v
+        self.skipped += o.skipped
         self.sim += o.sim
         self.nviol += o.nviol
         self.violations.extend(o.violations)
@@ -115,6 +123,7 @@ def _write_status(fd, index):
 def _worker(engine, prop, tier, master, k, gen_id, start, stride, max_index,
             deadline, outdir):
     signal.signal(signal.SIGINT, signal.SIG_DFL)
+    _quiet()
     acc = Acc()
     sfd = os.open(os.path.join(outdir, 'status.%d' % gen_id), os.O_CREAT | os.O_RDWR)
     respath = os.path.join(outdir, 'res.%d' % gen_id)
@@ -142,7 +151,7 @@ def _worker(engine, prop, tier, master, k, gen_id, start, stride, max_index,
             res = engine.execute(scenario, prop)
             acc.add(i, seed, scenario, res, keep_sample=(i < 3 * stride))
         except InvalidScenario as e:
-            acc.errors.append((i, 'generator produced an invalid scenario: %r' % (e,)))
+            acc.skipped += 1     # the generator over-approximates; the executor refused the scenario
         except Exception:
             acc.errors.append((i, traceback.format_exc()))
             if len(acc.errors) > 20:
@@ -158,6 +167,20 @@ def _worker(engine, prop, tier, master, k, gen_id, start, stride, max_index,
     os._exit(0)
 
 
+def _quiet():
+    """library code prints warnings from compiled code; keep the check's own output readable"""
+    if os.environ.get('VERIF_DEBUG'):
+        return
+    try:
+        sys.stdout.flush()
+        sys.stderr.flush()
+        dn = os.open(os.devnull, os.O_WRONLY)
+        os.dup2(dn, 1)
+        os.dup2(dn, 2)
+    except OSError:
+        pass
+
+
 def run_isolated(engine, scenario, prop, timeout=None):
     """execute one scenario in a forked child; returns ('ok', result) |
     ('crash', text) | ('hang', text) | ('invalid', text) | ('error', traceback)"""
@@ -166,6 +189,7 @@ def run_isolated(engine, scenario, prop, timeout=None):
     pid = os.fork()
     if pid == 0:
         os.close(r)
+        _quiet()
         try:
             try:
                 res = engine.execute(scenario, prop)
@@ -221,7 +245,10 @@ def _iso_violations(engine, scenario, prop):
         return val.get('violations', []), val
     if kind in ('crash', 'hang'):
         sig = engine.sig_of(scenario) if hasattr(engine, 'sig_of') else {}
-        return [dict(invariant=kind, detail=val, sig=sig)], None
+        v = dict(invariant=kind, detail=val, sig=sig)
+        if sig.get('cls'):
+            v['class'] = '%s %s' % (kind, sig['cls'])
+        return [v], None
     if kind == 'error':
         return [dict(invariant='harness-exception', detail=val, sig={})], None
     return [], None
@@ -619,6 +646,8 @@ def run_check(engine, prop, tier, master, runs=None, budget_s=None, out=print):
             components=meta.get('components', {}),
             known_finding_matches=known_hits,
             violation_classes=acc.viol_classes,
+            violation_strata=acc.viol_strata,
+            generated_but_refused_as_invalid=acc.skipped,
             crashes_or_hangs=len(crashes),
             workers=nw,
             exhaustive=False,
